@@ -39,6 +39,7 @@ CODES = {1: "statistics / sketch input differ from the documented update of the 
          11: "state layout differs from the model"}
 SKIP_CODES = (9, 10)
 MONITOR_CODES = (2,)
+MODEL_CODES = (2, 8)
 
 GRAFT_ID = {"none": 0, "sgd": 1, "rmsprop": 2, "adafactor": 3}
 
@@ -249,8 +250,13 @@ def evaluate(ctx, results, tag):
   for i, r in enumerate(results):
     if "exc" in r:
       continue
-    for t in range(len(r["steps"])):
-      terms.append(step_term(r, t))
+    try:
+      ts = [step_term(r, t) for t in range(len(r["steps"]))]
+    except ValueError as e:          # NaN / inf has no dyadic form
+      r["exc"] = "non-finite value in update or state from finite gradients (%s)" % e
+      continue
+    for t, tm in enumerate(ts):
+      terms.append(tm)
       idx.append((i, t))
   vals = ctx.coq_eval(tag, HEADER, terms, per_shard=max(4, len(terms) // (3 * common.NPROC) + 1),
                       timeout=2400)
@@ -319,7 +325,7 @@ def report(ctx, results):
       if sig in seen:
         continue
       seen.add(sig)
-      kind = "correspondence-broken" if cc in MONITOR_CODES else "impl-violates"
+      kind = "correspondence-broken" if cc in MODEL_CODES else "impl-violates"
       ctx.violation(kind, dict(
           input=case, step=int(t), leaf=leaf, code=cc, expected="chk_step = 0 (implementation step equals tf_spec)",
           actual=CODES.get(cc, "code %d" % cc),
